@@ -30,3 +30,42 @@ End Pieces.
 
 Definition spec_tokenize (s : list N) (spans : list (nat * nat)) : list (list N) :=
   match s with [] => [] | _ => pieces s spans 0 end.
+
+(* ---------------------------------------------------------------- the weak clause of C02 *)
+Section Weak.
+Variable fl : sflags.
+Variable s : list N.
+Variable r : re.
+Let n := length s.
+
+(* s[i..j) is a match of r: through [ends] when r has no back-reference, else through [R] *)
+Definition is_member (i j : nat) : bool :=
+  if has_backref r then existsb (fun je => Nat.eqb (fst je) j) (R fl s r i [])
+  else in_lang fl s r i j.
+Definition starts_match (p : nat) : bool :=
+  if has_backref r then match R fl s r p [] with [] => false | _ => true end
+  else match ends fl s r p with [] => false | _ => true end.
+Definition none_between (a b : nat) : bool := forallb (fun p => negb (starts_match p)) (seq a (b - a)).
+
+(* every reported span is a member of the match relation and starts at the leftmost position at
+   or after the previous end where any match starts; spans are non-empty and in order *)
+Fixpoint weak_valid (spans : list (nat * nat)) (prev : nat) : bool :=
+  match spans with
+  | [] => none_between prev n
+  | (i, j) :: t =>
+      Nat.leb prev i && Nat.ltb i j && Nat.leb j n && is_member i j && none_between prev i && weak_valid t j
+  end.
+End Weak.
+
+(* membership of one character in a pattern that is a single character-class term *)
+Definition single_class_mem (fl : sflags) (r : re) (c : N) : option bool :=
+  let go := fix go (r : re) : option bool :=
+    match r with
+    | RChar a => Some (lit_eq (s_i fl) a c)
+    | RDot => Some (s_s fl || negb (N.eqb c 10 || N.eqb c 13))
+    | RCls ce => Some (class_mem (s_i fl) ce c)
+    | REsc e => Some (esc_mem e c)
+    | RSeq [x] => go x
+    | RNc x => go x
+    | _ => None
+    end in go r.
